@@ -17,6 +17,7 @@ NOT_DECIDED = ("trace equality of a clone with its original; distinctness of res
 
 
 def check(ctx):
+    state_shares_named_after_framer(ctx, "T9-statepath")
     from .c11 import implicit_need_relative
     ctx.rule("T6-relative", "implicit framer needs (timeout/repeat) use the framer-relative path framer.me.state.<name>")
     implicit_need_relative(ctx, "T6-relative")
@@ -200,3 +201,26 @@ def _rest(ctx, fc, C):
               "rear of the same moot raises CloneError (statically declared `as mine` clones are insular but not razeable)")
     ctx.check(bool(_framing.call_in_loop(P, "prunables", "aux.prune")) or "aux.prune()" in src(pf), "T1-raze", pf, "prune recurses into nested clones", "")
     _registry.registry_binding(ctx)
+
+
+def state_shares_named_after_framer(ctx, rule):
+    """acts address a framer's clock/state shares as framer.me.state.<field>, and `me` resolves to the framer's *name*
+    (clones: <surname>_<tag>): the shares the framer itself updates must be created under that same name"""
+    ctx.rule(rule, "Framer.__init__ creates elapsed/recurred/active/human shares at 'framer.' + self.name + '.state.<field>' (by value)")
+    f = ctx.cls("framing", "Framer").own_method("__init__")
+    V = FuncView(ctx, f)
+    k = 0
+    for attr, field in (("self.elapsedShr", "elapsed"), ("self.recurredShr", "recurred"), ("self.activeShr", "active"), ("self.humanShr", "human")):
+        st = [n for n in V.stores(attr)]
+        ok = bool(st)
+        for n in st:
+            v = V.sym(n.ast.value, n)
+            txt = src(v)
+            k += 1
+            reads = {src(x) for x in ast.walk(v) if isinstance(x, ast.Attribute) and isinstance(x.value, ast.Name) and x.value.id == "self"
+                     and x.attr not in ("store",)}
+            ok = ok and "create" in txt and field in txt and "self.name" in reads and not (reads - {"self.name", "self.store.create"} - {r for r in reads if r.startswith("self.store")})
+        ctx.check(ok, rule, st[0].ast if st else f, "%s = store.create('framer.' + self.name + '.state.%s')" % (attr, field),
+                  "a share created under the clone *tag* (or any other attribute) is not the one `framer.me.state.%s` resolves to: a clone "
+                  "updates one share and tests another - its timeout never fires, and two clones with the same tag share their clocks" % field)
+    ctx.floor(rule + ":shares", k, 4)
